@@ -388,6 +388,7 @@ def sem_files_leg(o, name, files, wd, spec="TV_Sem.tla", cfg="TV_Sem.cfg", timeo
     results = run_tv_shards(files, spec, cfg, wd, timeout=timeout)
     counts = {}
     nrec = 0
+    agreeing = []
     for f, r in zip(files, results):
         o.add_tlc(r)
         recs = {x["id"]: x for x in core.read_ndjson(f)}
@@ -405,9 +406,12 @@ def sem_files_leg(o, name, files, wd, spec="TV_Sem.tla", cfg="TV_Sem.cfg", timeo
                             {"text": text, "obs": rec.get("obs"), "spec": v.get("spec"),
                              "spec_out": core.text_of(v.get("out", [])), "record_file": f, "id": v["id"],
                              "spec_module": spec, "cfg": cfg})
+            elif v["class"] == "agree" and len(agreeing) < 400 and recs[v["id"]]["obs"]["class"] in ("Value", "Err"):
+                agreeing.append(recs[v["id"]])
             if v["class"] != "skip":
                 o.traces += 1
     o.legs.append({"leg": name, "records": nrec, "verdicts": counts, "wall_s": round(time.time() - t0, 1)})
+    return agreeing     # records the specification accepted (the sensitivity self-tests corrupt these, never a rejected one)
 
 
 def check_C09(tier, seed):
@@ -938,9 +942,8 @@ def check_C04(tier, seed):
 def enum_leg(o, name, xset, shards=None):
     wd = core.workdir(f"{o.prop}_{name}")
     files = gen_files(wd, "gen-enum", ["--set", xset], shards or core.NCPU, "e")
-    sem_files_leg(o, name, files, wd)
+    recs = sem_files_leg(o, name, files, wd)[:60]
     # sensitivity on this leg
-    recs = [r for r in core.read_ndjson(files[0]) if r["obs"]["class"] in ("Value", "Err")][:60]
     rng = random.Random(3)
     bad = [corrupt_obs(r, rng) for r in rng.sample(recs, min(10, len(recs)))]
     bf = os.path.join(wd, "corrupt.ndjson")
@@ -1543,9 +1546,8 @@ def check_C17(tier, seed):
         core.run_nlh(["gen-session", "--seed", seed * 19 + i, "--n", n // shards, "--first-id", i * 1000000 + 1, "--out", f])
         return f
     sfiles = core.parallel(gen, list(range(shards)))
-    sem_files_leg(o, "random-sessions", sfiles, wd2)
+    recs = sem_files_leg(o, "random-sessions", sfiles, wd2)[:80]
     # sensitivity of the session legs
-    recs = [r for r in core.read_ndjson(sfiles[0]) if r["obs"]["class"] in ("Value", "Err")][:80]
     rng = random.Random(seed)
     bad = [corrupt_obs(r, rng) for r in rng.sample(recs, min(10, len(recs)))]
     bf = os.path.join(wd2, "corrupt.ndjson")
@@ -1663,7 +1665,8 @@ def big_leg(o, name, lattice, nrandom, seed, timeout=2400):
             if v["class"] == "mismatch":
                 for (op, form) in v["wrong"][:4]:
                     ob = rec["obs"][op][form - 1]
-                    forms = ["literal op literal", "variable op literal (in function)", "literal op variable (in function)"]
+                    forms = (["-a on the operand's spelling", "-x on a parameter", "-v on a global"] if op == "neg" else
+                             ["literal op literal", "variable op literal (in function)", "literal op variable (in function)"])
                     sig = {"leg": name, "rule": "operator", "op": op, "form": forms[form - 1],
                            "a": rec["at"], "b": rec["bt"], "observed": ob,
                            "class": {"E": "Err", "X": "Panic"}.get(ob.get("c"), "Value"),
